@@ -55,6 +55,8 @@ def gen_shape(rng, nmin=2, nmax=9, mix=None, pri="small", seq_rate=0.2, flags=Tr
                 shape = ["none"]
             elif kinds and r_shape < 0.36:
                 shape = ["handle"]  # an object whose identity matters (and that remembers being copied)
+            elif kinds and r_shape < 0.42:
+                shape = ["same"]  # hands its first identity-carrying argument on: two results are one object
             fns[fn] = dict(priority=p, is_sequential=rng.random() < seq_rate, resource=res, shape=shape)
         nd = {"fn": fn, "args": [], "kwargs": {}, "active": None}
         ds = sorted(rng.sample(range(i), rng.randint(0, min(i, max_deps))))
